@@ -262,7 +262,8 @@ def well_formed(g: Grammar) -> str | None:
 
 # ------------------------------------------------------------------ interpreter
 class Interp:
-    def __init__(self, g: Grammar, tokens: list[Any], keywords: set[str]):
+    def __init__(self, g: Grammar, tokens: list[Any], keywords: set[str], invalid: bool = False):
+        self.invalid = invalid  # pegen's call_invalid_rules flag
         self.g = g
         self.toks = tokens  # objects with .type.name and .string
         self.kw = keywords
@@ -296,6 +297,12 @@ class Interp:
                 self.seed[key] = last
             self.seed[key] = last
             return last
+        if name.endswith("without_invalid"):
+            saved, self.invalid = self.invalid, False
+            try:
+                return self.rhs(r.rhs, pos)
+            finally:
+                self.invalid = saved
         return self.rhs(r.rhs, pos)
 
     def rhs(self, rhs: Rhs, pos: int) -> tuple[Any, int]:
@@ -310,6 +317,9 @@ class Interp:
         return FAIL, pos
 
     def alt(self, alt: Alt, pos: int) -> tuple[Any, int, bool]:
+        diagnostic = refers_to_invalid(alt)
+        if diagnostic and not self.invalid:
+            return FAIL, pos, False  # an alternative that refers to an invalid_ rule is only tried in the second pass
         env: dict[str, Any] = {}
         vals: list[Any] = []
         cut = False
@@ -330,6 +340,8 @@ class Interp:
             vals.append(v)
             if it.name:
                 env[it.name] = v
+        if diagnostic and not alt.action:
+            return FAIL, pos, True  # pegen: such an alternative is expected to raise; if it matches, the rule fails there
         if alt.action:
             value = eval(alt.action, {"__builtins__": {}}, env)  # noqa: S307 (actions are my own tuple expressions)
         elif len(vals) == 1:
@@ -442,9 +454,25 @@ def grammar_keywords(g: Grammar) -> tuple[set[str], set[str]]:
     return hard, soft
 
 
-def run(g: Grammar, rule: str, tokens: list[Any], keywords: set[str]) -> tuple[str, Any, int]:
+def refers_to_invalid(node: Any) -> bool:
+    """pegen's InvalidNodeVisitor: a rule named invalid* referred to by the alternative - directly, inside a group, an
+    optional, a lookahead, a gather or a forced item (its visit_Repeat is misnamed: repetitions are not looked into)."""
+    if isinstance(node, NameLeaf):
+        return node.value.startswith("invalid")
+    if isinstance(node, Alt):
+        return any(refers_to_invalid(i.item) for i in node.items)
+    if isinstance(node, Rhs):
+        return any(refers_to_invalid(a) for a in node.alts)
+    if isinstance(node, Group):
+        return refers_to_invalid(node.rhs)
+    if isinstance(node, (Opt, PositiveLookahead, NegativeLookahead, Gather, Forced)):
+        return refers_to_invalid(node.node)
+    return False
+
+
+def run(g: Grammar, rule: str, tokens: list[Any], keywords: set[str], invalid: bool = False) -> tuple[str, Any, int]:
     """('ok', value, end) | ('fail', None, 0) | ('forced', None, 0)"""
-    it = Interp(g, tokens, keywords)
+    it = Interp(g, tokens, keywords, invalid)
     try:
         v, p = it.rule(rule, 0)
     except ForcedFailure:
